@@ -67,6 +67,19 @@ func runC13(c *core.Ctx) {
 			}
 			if b2, err := cfg.New(); err == nil && top >= 0 {
 				b2.AddChannel(reg.Uplink[0].Freq+1800000, top, top)
+				// ... and one on a frequency the default plan already uses: the default channels stay what the
+				// Regional Parameters say (adding never alters a standard channel)
+				b2.AddChannel(reg.Uplink[len(reg.Uplink)-1].Freq, top, top)
+				for i := range reg.Uplink {
+					want, _ := b.GetUplinkChannel(i) // the untouched instance, itself compared with the Regional Parameters above
+					if ch, err := b2.GetUplinkChannel(i); err != nil || ch != want {
+						c.Violate(fmt.Sprintf("C13|%s|default-channel-altered|ch=%d", cfg.Name, i), "after AddChannel calls default uplink channel %d is %+v (err %v); it was %+v", i, ch, err, want)
+						break
+					}
+				}
+				if n := len(b2.GetUplinkChannelIndices()); n != len(reg.Uplink)+2 {
+					c.Violate("C13|"+cfg.Name+"|channel-count-after-add", "%d uplink channels after two AddChannel calls on a plan of %d", n, len(reg.Uplink))
+				}
 				c13Closure(c, cfg, b2, snap)
 				b2.AddChannel(reg.Uplink[0].Freq+2000000, 0, 0)
 				for i := range reg.Uplink {
